@@ -369,6 +369,24 @@ def _strategies():
         expr.map(lambda e: ('sdl', f'module default {{ type Foo {{ property p := ({e}); constraint expression on ({e}); index on ({e}); access policy ap allow all using ({e}); }}; alias A := ({e}); function f(a: int64) -> str using ({e}); }}')),
         expr.map(lambda e: ('migration', f'create type T {{ create property p := ({e}) }}; set message := \'m\';')),
         expr.map(lambda e: ('block', f'configure session set singleprop := ({e}); set alias m as module std; set module default; reset alias *;')),
+        # statement kinds and name positions outside expressions
+        st.tuples(expr, shortid).map(lambda t: ('block', f'select {t[1]} := {t[0]}; with w := 1 select {t[1]} := ({t[0]}) filter {t[1]};')),
+        st.tuples(expr, st.sampled_from(['', '(buffers := true) ', '(execute := false, buffers := true) '])).map(
+            lambda t: ('block', f'analyze {t[1]}select {t[0]}; analyze {t[1]}insert User {{ name := {t[0]} }};')),
+        st.tuples(expr, shortid).map(lambda t: ('block', f'administer vacuum({t[1]}, full := {t[0]}); administer statistics_update();')),
+        st.tuples(shortid, shortid).map(
+            lambda t: ('block', f'start transaction; declare savepoint {t[0]}; rollback to savepoint {t[0]}; '
+                                f'release savepoint {t[1]}; start transaction isolation serializable, read only, deferrable; commit; rollback;')),
+        st.tuples(shortid, shortid, st.sampled_from(['', ' force'])).map(
+            lambda t: ('block', f'create empty branch {t[0]}; create schema branch {t[0]} from {t[1]}; create data branch {t[0]} from {t[1]}; '
+                                f'alter branch {t[0]}{t[2]} rename to {t[1]}; drop branch {t[0]}{t[2]}; drop database {t[1]}; create database {t[0]};')),
+        st.tuples(shortid, shortid).map(
+            lambda t: ('block', f'set alias {t[0]} as module {t[1]}; reset alias {t[0]}; set module {t[1]}; reset module;')),
+        st.tuples(expr, st.sampled_from(['-1', '-1.5', '-2n', '(-1)', '+1'])).map(
+            lambda t: ('block', f'select (for v in ({t[1]}) union ({t[0]})); for v in ({t[1]}) union (v);')),
+        st.tuples(shortid, st.sampled_from(['object', 'type', 'function', 'module', 'link', 'property', 'scalar type', 'alias',
+                                            'constraint', 'annotation', 'global'])).map(
+            lambda t: ('block', f'describe {t[1]} {t[0]} as sdl; describe {t[1]} {t[0]} as text verbose; describe schema as ddl;')),
     )
     return expr, stmt
 
@@ -394,6 +412,39 @@ def _one(rec, entry, name, text, mode_idx, origin):
         rec.violation(sig, case, detail)
 
 
+QUOTED_IDENTS = ['`a b`', '`union`', '`select`', '`if`', '`x-y`', '`1st`', '`with`', '`a``b`', '`order`', '`Group By`']
+
+
+def requote(text, pick):
+    """-> the text with every occurrence of 1-2 of its plain identifiers replaced by an identifier
+    that needs quoting (spaces, reserved keywords, leading digit, embedded back-quote), or None.
+    `pick(n)` returns an int in [0, n).  Token kinds and spans come from the repository lexer;
+    keywords (also unreserved ones) and already quoted identifiers are left alone."""
+    import edb._edgeql_parser as P
+    try:
+        r = P.tokenize(text)
+    except Exception:
+        return None
+    if getattr(r, 'errors', None):
+        return None
+    b = text.encode('utf-8')
+    by_name: dict = {}
+    for t in r.out:
+        j = t._j
+        if j.get('kind') == 'Ident' and not j['text'].startswith('`') and not j['text'].startswith('__'):
+            by_name.setdefault(j['text'], []).append((j['span']['start'], j['span']['end']))
+    if not by_name:
+        return None
+    names = sorted(by_name)
+    chosen = {names[pick(len(names))]: QUOTED_IDENTS[pick(len(QUOTED_IDENTS))]}
+    if len(names) > 1 and pick(3) == 0:
+        chosen.setdefault(names[pick(len(names))], QUOTED_IDENTS[pick(len(QUOTED_IDENTS))])
+    edits = sorted(((a, e, q) for nm, q in chosen.items() for a, e in by_name[nm]), reverse=True)
+    for a, e, q in edits:
+        b = b[:a] + q.encode() + b[e:]
+    return b.decode('utf-8')
+
+
 def shard(rec, idx, nshards, seed, tier):
     S = _setup()
     corpus = S['corpus']
@@ -414,6 +465,23 @@ def shard(rec, idx, nshards, seed, tier):
 
     core.run_given(st.tuples(stmt, st.integers(0, 3)), body,
                    seed=seed * 1000 + idx, max_examples=n)
+    # identifiers that need quoting, in every position the corpus and the grammar reach
+    nq = 200 if tier == 'quick' else 5000
+    mine = [c for i_, c in enumerate(corpus) if i_ % nshards == idx and len(c[2]) < 4000]
+
+    def body_q(c):
+        which, (entry, gtext), picks, m = c
+        if which < 3 and mine:
+            entry, _n, text = mine[picks[0] % len(mine)]
+        else:
+            text = gtext
+        it = iter(picks[1:] + [0] * 8)
+        q = requote(text, lambda n_: next(it) % n_)
+        if q is not None and q != text:
+            _one(rec, entry, None, q, m, 'requoted')
+    core.run_given(st.tuples(st.integers(0, 3), stmt, st.lists(st.integers(0, 10 ** 6), min_size=6, max_size=6),
+                             st.integers(0, 3)),
+                   body_q, seed=seed * 1000 + idx + 700, max_examples=nq)
     # splice generated expressions into corpus statements
     from hypothesis import strategies as st2
     holes = _holes(corpus, idx, nshards)
